@@ -1,4 +1,5 @@
-import RocflModel.Lemmas.DiffLemmas
+import RocflModel.Lemmas.DiffRename
+import RocflModel.Lemmas.DiffHistory
 /-
   C18 — diff, log and ls -l tell the true history of an object.
 
@@ -88,5 +89,243 @@ theorem C18_added_iff (left right : List (LPath × Digest)) (hl : AL.NoDupKeys l
       obtain ⟨p, hm, hn⟩ := (havail d).mp ha
       have := hall p (AL.get_of_mem hl hm)
       rw [hn] at this; cases this
+
+/-! ### `Deleted` and `Renamed` -/
+
+/-- paths with content `d` that exist only in `a` (not in `b`), in the order of `a` -/
+def onlyIn (a b : List (LPath × Digest)) (d : Digest) : List LPath :=
+  (a.filter (fun e => e.2 == d && (AL.get b e.1).isNone)).map (·.1)
+
+theorem mem_onlyIn (a b : List (LPath × Digest)) (d : Digest) (p : LPath) :
+    p ∈ onlyIn a b d ↔ (p, d) ∈ a ∧ AL.get b p = none := mem_missingOf b a d p
+
+private theorem seen_iff (left right : List (LPath × Digest)) (x : LPath) :
+    x ∈ (left.foldl (diffLeftStep right) {}).seen ↔ ∃ ld, (x, ld) ∈ left ∧ (AL.get right x).isSome = true := by
+  rw [diffLeft_seen]; simp
+
+/-- the right-hand paths the second loop looks at are the ones that exist only on the right -/
+private theorem unseen_eq_onlyIn (left right : List (LPath × Digest)) (hr : AL.NoDupKeys right) (d : Digest) :
+    unseenOf (left.foldl (diffLeftStep right) {}).seen right d = onlyIn right left d := by
+  unfold unseenOf onlyIn
+  congr 1
+  apply List.filter_congr
+  intro e he
+  have hg : AL.get right e.1 = some e.2 := AL.get_of_mem hr he
+  congr 1
+  cases hgl : AL.get left e.1 with
+  | none =>
+    have : e.1 ∉ (left.foldl (diffLeftStep right) {}).seen := by
+      intro hs
+      obtain ⟨ld, hm, _⟩ := (seen_iff left right e.1).mp hs
+      have := AL.mem_keys_of_get (l := left) (k := e.1) (v := ld)
+      have hk : e.1 ∈ AL.keys left := List.mem_map.mpr ⟨(e.1, ld), hm, rfl⟩
+      have := (AL.get_isSome_iff_mem_keys left e.1).mpr hk
+      rw [hgl] at this; cases this
+    simp [this]
+  | some ld =>
+    have : e.1 ∈ (left.foldl (diffLeftStep right) {}).seen :=
+      (seen_iff left right e.1).mpr ⟨ld, AL.mem_of_get hgl, by simp [hg]⟩
+    simp [this]
+
+private theorem deletes_final (left right : List (LPath × Digest)) (hr : AL.NoDupKeys right) (d : Digest) :
+    AL.get (right.foldl diffRightStep (left.foldl (diffLeftStep right) {})).deletes d =
+      if onlyIn right left d = [] then (if onlyIn left right d = [] then none else some (onlyIn left right d))
+      else none := by
+  rw [diffRight_deletes_val, unseen_eq_onlyIn left right hr, diffLeft_deletes_val]
+  have : missingOf right left d = onlyIn left right d := rfl
+  rw [this]
+  have h0 : AL.get ({} : DiffAcc).deletes d = none := rfl
+  rw [h0]
+  simp
+
+private theorem renames_final (left right : List (LPath × Digest)) (hr : AL.NoDupKeys right) (d : Digest) :
+    AL.get (right.foldl diffRightStep (left.foldl (diffLeftStep right) {})).renames d =
+      if onlyIn right left d = [] ∨ onlyIn left right d = [] then none
+      else some (onlyIn left right d, onlyIn right left d) := by
+  rw [diffRight_renames_val, unseen_eq_onlyIn left right hr, diffLeft_deletes_val, diffLeft_seen_deletes]
+  have : missingOf right left d = onlyIn left right d := rfl
+  rw [this]
+  have h0 : AL.get ({} : DiffAcc).deletes d = none := rfl
+  have h1 : AL.get ({} : DiffAcc).renames d = none := rfl
+  rw [h0, h1]
+  cases h : onlyIn right left d with
+  | nil => simp
+  | cons q qs =>
+    by_cases hm : onlyIn left right d = []
+    · simp [hm]
+    · simp [hm]
+
+private theorem final_nodup (left right : List (LPath × Digest)) :
+    AL.NoDupKeys (right.foldl diffRightStep (left.foldl (diffLeftStep right) {})).deletes ∧
+    AL.NoDupKeys (right.foldl diffRightStep (left.foldl (diffLeftStep right) {})).renames := by
+  apply diffRight_nodup
+  refine ⟨diffLeft_deletes_nodup _ _ _ AL.nodup_nil, ?_⟩
+  rw [diffLeft_seen_deletes]
+  exact AL.nodup_nil
+
+private theorem final_diffs_kind (left right : List (LPath × Digest)) :
+    ∀ x ∈ (right.foldl diffRightStep (left.foldl (diffLeftStep right) {})).diffs,
+      (∃ p, x = .modified p) ∨ (∃ p, x = .added p) := by
+  apply diffRight_diffs_kind
+  apply diffLeft_diffs_kind
+  intro x hx
+  cases hx
+
+/-- **Deleted** is reported exactly for the paths that exist only on the left and whose content is not
+    the content of a path that exists only on the right (that would be a rename) -/
+theorem C18_deleted_iff (left right : List (LPath × Digest)) (hl : AL.NoDupKeys left) (hr : AL.NoDupKeys right)
+    (p : LPath) :
+    Diff.deleted p ∈ diffStates right (some left) ↔
+      ∃ d, AL.get left p = some d ∧ AL.get right p = none ∧
+        ∀ q, AL.get right q = some d → (AL.get left q).isSome = true := by
+  rw [mem_diffStates]
+  simp only
+  obtain ⟨hnd, _⟩ := final_nodup left right
+  constructor
+  · rintro (h | ⟨⟨d, ps⟩, he, q, hq, hx⟩ | ⟨e, _, hx⟩)
+    · rcases final_diffs_kind left right _ h with ⟨_, hx⟩ | ⟨_, hx⟩ <;> cases hx
+    · cases hx
+      have hg := AL.get_of_mem hnd he
+      rw [deletes_final left right hr] at hg
+      by_cases h1 : onlyIn right left d = []
+      · by_cases h2 : onlyIn left right d = []
+        · simp [h1, h2] at hg
+        · simp only [h1, h2, if_true, if_false, Option.some.injEq] at hg
+          subst hg
+          obtain ⟨hm, hn⟩ := (mem_onlyIn left right d p).mp hq
+          refine ⟨d, AL.get_of_mem hl hm, hn, ?_⟩
+          intro q hgq
+          cases hgl : AL.get left q with
+          | some x => rfl
+          | none =>
+            have : q ∈ onlyIn right left d := (mem_onlyIn right left d q).mpr ⟨AL.mem_of_get hgq, hgl⟩
+            rw [h1] at this; cases this
+      · simp [h1] at hg
+    · cases hx
+  · rintro ⟨d, hgl, hgr, hall⟩
+    right; left
+    have h1 : onlyIn right left d = [] := by
+      cases h : onlyIn right left d with
+      | nil => rfl
+      | cons q qs =>
+        have hq : q ∈ onlyIn right left d := by rw [h]; exact List.mem_cons_self ..
+        obtain ⟨hm, hn⟩ := (mem_onlyIn right left d q).mp hq
+        have := hall q (AL.get_of_mem hr hm)
+        rw [hn] at this; cases this
+    have hp : p ∈ onlyIn left right d := (mem_onlyIn left right d p).mpr ⟨AL.mem_of_get hgl, hgr⟩
+    have h2 : onlyIn left right d ≠ [] := by intro h; rw [h] at hp; cases hp
+    have hg := deletes_final left right hr d
+    simp only [h1, h2, if_true, if_false] at hg
+    exact ⟨(d, onlyIn left right d), AL.mem_of_get hg, p, hp, rfl⟩
+
+/-- **Renamed** is reported exactly once per content that has paths only on the left and paths only on
+    the right, and lists all of them: the left-only paths as the originals, the right-only paths as
+    the new names, both sorted -/
+theorem C18_renamed_iff (left right : List (LPath × Digest)) (hr : AL.NoDupKeys right) (o r : List LPath) :
+    Diff.renamed o r ∈ diffStates right (some left) ↔
+      ∃ d, onlyIn left right d ≠ [] ∧ onlyIn right left d ≠ [] ∧
+        o = sortPaths (onlyIn left right d) ∧ r = sortPaths (onlyIn right left d) := by
+  rw [mem_diffStates]
+  simp only
+  obtain ⟨_, hnd⟩ := final_nodup left right
+  constructor
+  · rintro (h | ⟨e, _, q, _, hx⟩ | ⟨⟨d, orig, rn⟩, he, hx⟩)
+    · rcases final_diffs_kind left right _ h with ⟨_, hx⟩ | ⟨_, hx⟩ <;> cases hx
+    · cases hx
+    · have hg := AL.get_of_mem hnd he
+      rw [renames_final left right hr] at hg
+      by_cases hc : onlyIn right left d = [] ∨ onlyIn left right d = []
+      · simp [hc] at hg
+      · simp only [hc, if_false, Option.some.injEq, Prod.mk.injEq] at hg
+        obtain ⟨h1, h2⟩ := hg
+        subst h1; subst h2
+        injection hx with ho hrn
+        exact ⟨d, fun h => hc (Or.inr h), fun h => hc (Or.inl h), ho, hrn⟩
+  · rintro ⟨d, h1, h2, ho, hrn⟩
+    right; right
+    have hg := renames_final left right hr d
+    have hc : ¬ (onlyIn right left d = [] ∨ onlyIn left right d = []) := by
+      rintro (h | h)
+      · exact h2 h
+      · exact h1 h
+    simp only [hc, if_false] at hg
+    exact ⟨(d, onlyIn left right d, onlyIn right left d), AL.mem_of_get hg, by rw [ho, hrn]⟩
+
+/-- the `Renamed` entries are one per content: two of them never share an original or a new name -/
+theorem C18_renamed_once (left right : List (LPath × Digest)) (hl : AL.NoDupKeys left)
+    (d d' : Digest) (p : LPath) (h : p ∈ onlyIn left right d) (h' : p ∈ onlyIn left right d') : d = d' := by
+  have h1 := AL.get_of_mem hl ((mem_onlyIn left right d p).mp h).1
+  have h2 := AL.get_of_mem hl ((mem_onlyIn left right d' p).mp h').1
+  rw [h1] at h2
+  exact Option.some.inj h2
+
+/-- non-vacuity: a concrete pair of states with a modified, an added, a deleted and a renamed path -/
+example :
+    diffStates [(['a'], ['1']), (['n'], ['2']), (['m'], ['9']), (['x'], ['4'])]
+      (some [(['a'], ['0']), (['o'], ['2']), (['g'], ['3'])]) =
+    [.modified ['a'], .added ['m'], .added ['x'], .deleted ['g'], .renamed (sortPaths [['o']]) (sortPaths [['n']])] := by rfl
+
+/-! ### file log and last-update attribution -/
+
+/-- **`ls -l` / last update**: the version shown for a path of version `vn` is the first version of
+    the longest run of versions ending at `vn` throughout which the path holds the content it has in
+    `vn` — the path has that content in every version from there to `vn`, and not in the one before -/
+theorem C18_last_update (inv : Inv) (vn : Nat) (p : LPath) (d : Digest) (h : inv.holds vn p d) :
+    inv.lastUpdate vn p ≤ vn ∧
+    (∀ k, inv.lastUpdate vn p ≤ k → k ≤ vn → inv.holds k p d) ∧
+    (inv.lastUpdate vn p ≤ 1 ∨ ¬ inv.holds (inv.lastUpdate vn p - 1) p d) := by
+  obtain ⟨v, hv, hd⟩ := h
+  have hall : ∀ k, vn ≤ k → k ≤ vn → inv.holds k p d := by
+    intro k h1 h2
+    have : k = vn := by omega
+    subst this
+    exact ⟨v, hv, hd⟩
+  have := lastUpdate_go_spec inv p d vn vn vn (Nat.le_refl _) (Nat.le_refl _) hall
+  unfold Inv.lastUpdate
+  simp only [hv, hd]
+  exact this
+
+/-- **file log**: the versions listed for a path are exactly those in which its content differs from
+    its content in the version before (appeared, changed, disappeared) -/
+theorem C18_file_versions (inv : Inv) (p : LPath) (vs : List Nat) (h : inv.fileVersions p = .ok vs) (k : Nat) :
+    k ∈ vs ↔ 1 ≤ k ∧ k ≤ inv.versions.length ∧ inv.contentAt k p ≠ inv.contentAt (k - 1) p := by
+  unfold Inv.fileVersions at h
+  simp only at h
+  split at h
+  · cases h
+  · injection h with h
+    subst h
+    exact (fileVersions_fold inv p inv.versions.length (Nat.le_refl _)).2 k
+
+/-- the file log fails only with NotFound, and only for a path that no version contains -/
+theorem C18_file_versions_notfound (inv : Inv) (p : LPath) (e : Err) (h : inv.fileVersions p = .error e) :
+    e = .notFound ∧ ∀ k, inv.contentAt k p = none := by
+  unfold Inv.fileVersions at h
+  simp only at h
+  split at h
+  · rename_i hem
+    injection h with h
+    refine ⟨h.symm, ?_⟩
+    have hspec := (fileVersions_fold inv p inv.versions.length (Nat.le_refl _)).2
+    have hnil : ((List.range inv.versions.length).foldl (inv.fileVersionsStep p) (none, [])).2 = [] := by
+      simpa using hem
+    intro k
+    induction k with
+    | zero => simp [Inv.contentAt, Inv.getVersion]
+    | succ k ih =>
+      by_cases hk : k + 1 ≤ inv.versions.length
+      · cases hc : inv.contentAt (k + 1) p with
+        | none => rfl
+        | some d =>
+          have : k + 1 ∈ ((List.range inv.versions.length).foldl (inv.fileVersionsStep p) (none, [])).2 := by
+            rw [hspec]
+            refine ⟨by omega, hk, ?_⟩
+            rw [Nat.add_sub_cancel, ih, hc]
+            exact fun h => by cases h
+          rw [hnil] at this
+          cases this
+      · have : inv.versions[k]? = none := List.getElem?_eq_none (by omega)
+        simp [Inv.contentAt, Inv.getVersion, this]
+  · cases h
 
 end Rocfl.Theorems.C18
